@@ -4,9 +4,9 @@ From DV Require Import C17.Model C17.Proofs C18.Service.
 Import ListNotations.
 Open Scope N_scope.
 
-Lemma serve_spec : forall s q, serve replace_fixed s q = spec_serve s q.
+Lemma serve_spec : forall s q, serve replace_fixed s q = serve_by_op s q.
 Proof.
-  intros s q. unfold spec_serve.
+  intros s q. unfold serve_by_op.
   destruct q as [c|c|n k| | |k ok|k inv input| |]; cbn [serve op_of refusal].
   - destruct c as [| | | |m]; cbn [with_content op_of]; try reflexivity.
     cbn [step]. destruct (add s m) as [s' ok]. destruct ok; reflexivity.
@@ -15,9 +15,9 @@ Proof.
   - destruct n as [n|]; [destruct k as [k|]|]; reflexivity.
   - reflexivity.
   - reflexivity.
-  - destruct ok; [|reflexivity]. cbn [step report]. destruct (mem k (evs s)); reflexivity.
+  - destruct ok; [|reflexivity]. cbn [step report]. destruct (lookup k (evs s)); reflexivity.
   - destruct k as [k|]; [|reflexivity]. destruct inv; [|reflexivity]. destruct input as [[|]|]; try reflexivity.
-    cbn [step report]. destruct (mem k (evs s)); reflexivity.
+    cbn [step report]. destruct (lookup k (evs s)); reflexivity.
   - reflexivity.
   - reflexivity.
 Qed.
@@ -53,9 +53,9 @@ Proof.
   - destruct n as [n|]; [destruct k as [k|]|]; cbn; try reflexivity. discriminate.
   - cbn. discriminate.
   - cbn. discriminate.
-  - destruct ok; [|reflexivity]. destruct (mem k (evs s)); reflexivity.
+  - destruct ok; [|reflexivity]. destruct (lookup k (evs s)); reflexivity.
   - destruct k as [k|]; [|reflexivity]. destruct inv; [|reflexivity]. destruct input as [[|]|]; try reflexivity.
-    destruct (mem k (evs s)); reflexivity.
+    destruct (lookup k (evs s)); reflexivity.
   - reflexivity.
   - reflexivity.
 Qed.
@@ -64,7 +64,7 @@ Lemma serve_all_spec : forall qs s, serve_all replace_fixed s qs =
   (fst (run remove s (ops_of qs)), reports qs (snd (run remove s (ops_of qs)))).
 Proof.
   induction qs as [|q r IH]; intros s; [reflexivity|].
-  cbn [serve_all]. rewrite serve_spec. unfold spec_serve. cbn [ops_of flat_map reports].
+  cbn [serve_all]. rewrite serve_spec. unfold serve_by_op. cbn [ops_of flat_map reports].
   destruct (op_of q) as [o|] eqn:E.
   - cbn [app run]. destruct (step remove s o) as [s1 x]. rewrite IH. fold (ops_of r).
     destruct (run remove s1 (ops_of r)) as [s2 xs]. reflexivity.
@@ -101,7 +101,7 @@ Theorem faults_transparent : forall bad s,
   fst (serve_all replace_fixed s bad) = s /\ Forall (fun r => is_err r = true) (snd (serve_all replace_fixed s bad)).
 Proof.
   induction bad as [|q r IH]; intros s H; [split; [reflexivity|constructor]|].
-  inversion H as [|q' r' Hq Hr]; subst. cbn [serve_all]. rewrite serve_spec. unfold spec_serve. rewrite Hq.
+  inversion H as [|q' r' Hq Hr]; subst. cbn [serve_all]. rewrite serve_spec. unfold serve_by_op. rewrite Hq.
   destruct (IH s Hr) as [IH1 IH2]. destruct (serve_all replace_fixed s r) as [s2 xs]. cbn [fst snd] in *. split; [exact IH1|].
   constructor; [reflexivity|exact IH2].
 Qed.
@@ -127,9 +127,9 @@ Proof.
   destruct (mem (nm m) (by_nm (remove s (ns m) (nm m)))); [discriminate|]. reflexivity.
 Qed.
 
-(* an evaluation is answered with a value exactly when the model is deployed *)
-Theorem evaluate_iff_deployed : forall s k, snd (serve replace_fixed s (QEvaluate k true)) = RValue k <-> mem k (evs s) = true.
-Proof. intros s k. cbn [serve]. destruct (mem k (evs s)); cbn; split; intros H; congruence. Qed.
+(* an evaluation is answered with the value of the document d exactly when the evaluator deployed under the name was built from d *)
+Theorem evaluate_iff_deployed : forall s k d, snd (serve replace_fixed s (QEvaluate k true)) = RValue k d <-> lookup k (evs s) = Some d.
+Proof. intros s k d. cbn [serve]. destruct (lookup k (evs s)); cbn; split; intros H; congruence. Qed.
 
 (* the handler of the pinned commit: replacing a stored model is refused *)
 Theorem replace_orig_refuted : exists qs,
@@ -139,5 +139,5 @@ Proof. exists [QAdd (CModel mA); QReplace (CModel mA)]. vm_compute. discriminate
 Example service_nonvacuous :
   serve_all replace_fixed init [QAdd (CModel mA); QAdd CBadBase64; QReplace (CModel mA); QRejected; QDeploy; QEvaluate 11 true; QEvaluate 12 true; QEvaluate 11 false]
   = (fst (run remove init [Add mA; Replace mA; Deploy]),
-     [RAdded 1 11; RErr EBase64; RStatus 2; RErr EBadRequest; RStatus 4; RValue 11; RErr ENotDeployed; RErr EInput]).
+     [RAdded 1 11; RErr EBase64; RStatus 2; RErr EBadRequest; RStatus 4; RValue 11 101; RErr ENotDeployed; RErr EInput]).
 Proof. vm_compute. reflexivity. Qed.
